@@ -25,13 +25,15 @@ func init() {
 				"reply, and that function accepts only replies whose ID, question count, question type and (case-insensitively) " +
 				"name equal the request's.",
 			NotCovered: "the up/down state machine over all fault sequences and the timing of the backoff (run-time quantities).",
-			Rules: map[string]string{"C17-R9": "the fail-over decision classifies exchange errors with the same helper as the retry (net.Error or io.EOF)", "C17-RC": "class rules (error chains, shadowed results, character classes, crossed arguments, pool constructors, array pools, loop completeness, loop-carried buffers, replacing setters, complete clones, Grow arithmetic, pooled-buffer escape, sorted searches, fresh decode targets, per-iteration objects, whole-message copies, codec guards) over the packages this property rests on", "C17-R8": "every fmt.Errorf that reports an error value wraps it with %w (the fail-over decision classifies causes with errors.As)", "C17-R7": "upstream connection pool: Get hands out only connections that passed the idle-expiry test (expired ones are closed), Put queues or closes", "C17-R1": "ServeDNS fail-over table", "C17-R2": "who replaces the active set, under which lock and gate",
+			Rules: map[string]string{"C17-R10": "isExpectedConnErr is net.Error-or-EOF on non-nil errors; the forward metrics listener tolerates the nil response of a failed exchange", "C17-R9": "the fail-over decision classifies exchange errors with the same helper as the retry (net.Error or io.EOF)", "C17-RC": "class rules (error chains, shadowed results, character classes, crossed arguments, pool constructors, array pools, loop completeness, loop-carried buffers, replacing setters, complete clones, Grow arithmetic, pooled-buffer escape, sorted searches, fresh decode targets, per-iteration objects, whole-message copies, codec guards) over the packages this property rests on", "C17-R8": "every fmt.Errorf that reports an error value wraps it with %w (the fail-over decision classifies causes with errors.As)", "C17-R7": "upstream connection pool: Get hands out only connections that passed the idle-expiry test (expired ones are closed), Put queues or closes", "C17-R1": "ServeDNS fail-over table", "C17-R2": "who replaces the active set, under which lock and gate",
 				"C17-R3": "health probe state table", "C17-R5": "configuration wiring: main servers, fallback servers and health-check settings of the configuration reach the handler's fields of the same meaning",
 				"C17-R4": "reply validation tables"},
 		}})
 }
 
 func runC17(c *an.Ctx) {
+	c.Floor("C17-R10", 2)
+	c17ConnErrClass(c)
 	c.Floor("C17-R9", 1)
 	c17ErrClassAgreement(c)
 	classSweep(c, "C17")
@@ -1057,4 +1059,32 @@ func c17ErrClassAgreement(c *an.Ctx) {
 	}
 	c.Check(viaHelper && uses >= 2, "C17-R9", "dnsserver/forward.(*Handler).ServeDNS decides the fail-over with isExpectedConnErr", token.NoPos,
 		"the fail-over decision uses the package's one definition of a connection failure", "the fail-over decision does not use isExpectedConnErr")
+}
+
+
+// c17ConnErrClass holds the table of the package's definition of a failed
+// connection and the nil guard of the metrics callback that runs between an
+// exchange and the fail-over decision.
+func c17ConnErrClass(c *an.Ctx) {
+	decide(c, "C17-R10", "dnsserver/forward.isExpectedConnErr", an.DecideCfg{
+		Dom: an.Domain{"p0": an.NilOrNot, "isnet": an.Bools, "iseof": an.Bools},
+		OnCall: func(it *an.Interp, name string, args []an.AV) (an.AV, bool) {
+			switch {
+			case strings.HasSuffix(name, "errors.As"):
+				return it.Feature("isnet"), true
+			case strings.HasSuffix(name, "errors.Is"):
+				return it.Feature("iseof"), true
+			}
+			return an.AV{}, false
+		},
+		Expect: func(f an.Features, o an.AOutcome) string {
+			want := !f.IsNil("p0") && (f.B("isnet") || f.B("iseof"))
+			if len(o.Ret) != 1 || o.Ret[0].Kind != an.KConst || o.Ret[0].IsTrue() != want {
+				return fmt.Sprintf("%v (a non-nil error that is a net.Error or io.EOF); got %s", want, o.RetString())
+			}
+			return ""
+		},
+	})
+	sharedNilGuardedParam(c, "C17-R10", "dnsserver/prometheus.(*ForwardMetricsListener).OnForwardRequest", 4,
+		"Handler.exchange calls the listener after every exchange, also a failed one, whose response is nil: the panic replaces the error on which the fail-over decision is made")
 }
